@@ -109,7 +109,10 @@ type loopCut struct {
 	entry   *State
 	failed  string // fault mode: "some dependency has failed" at the loop head
 	globals map[*Cell]string // package-level variables at the loop head
+	ghosts  map[string]string // trace/store/clock/lastsig terms at the loop head ("" = untouched so far)
 }
+
+var cutGhostKeys = []string{"trace", "store", "exists", "clock", "lastsig"}
 
 func (fr *Frame) copy() *Frame {
 	if fr == nil {
@@ -1612,6 +1615,16 @@ func (x *Exec) loopEntry(st *State, fr *Frame, lp *Loop, pv map[*ssa.Phi]Val) {
 			cut.globals[gc] = tv.E
 		}
 	}
+	// ghost state that is not havocked at a loop head (the event trace, the file store, the clock
+	// readings, the last signature): the loop body must leave it as it is, see loopBack
+	cut.ghosts = map[string]string{}
+	for _, k := range cutGhostKeys {
+		if tv, ok := st.ghost[k].(TV); ok {
+			cut.ghosts[k] = tv.E
+		} else {
+			cut.ghosts[k] = ""
+		}
+	}
 	fr.cutLoops[lp.ordinal] = cut
 	// smoke: invariants are satisfiable together with the path
 	x.smoke(st, fr, name+".inv")
@@ -1685,7 +1698,7 @@ func (x *Exec) loopBack(st *State, fr *Frame, lp *Loop, pv map[*ssa.Phi]Val) {
 		for _, id := range ids {
 			gc := byID[id]
 			if cur, ok := st.cells[gc].(TV); ok && cur.E != cut.globals[gc] {
-				x.oblige(st, fr, fmt.Sprintf("inv.%d.*.global.%s.step", lp.ordinal, sanitizeIdent(gc.name)), "frame", "frame", tEq(cut.globals[gc], cur.E), nil, nil)
+				x.oblige(st, fr, fmt.Sprintf("inv.%d.*.global.%s.step", lp.ordinal, sanitizeIdent(gc.name)), "inv.step", "*.cut.global", tEq(cut.globals[gc], cur.E), nil, nil)
 			}
 		}
 		for _, g := range sortedGlobals() {
@@ -1697,8 +1710,26 @@ func (x *Exec) loopBack(st *State, fr *Frame, lp *Loop, pv map[*ssa.Phi]Val) {
 			init, ok1 := st.ghost[fmt.Sprintf("ginit:%d", gc.id)].(TV)
 			cur, ok2 := st.cells[gc].(TV)
 			if ok1 && ok2 && init.E != cur.E {
-				x.oblige(st, fr, fmt.Sprintf("inv.%d.*.global.%s.step", lp.ordinal, sanitizeIdent(gc.name)), "frame", "frame", tEq(init.E, cur.E), nil, nil)
+				x.oblige(st, fr, fmt.Sprintf("inv.%d.*.global.%s.step", lp.ordinal, sanitizeIdent(gc.name)), "inv.step", "*.cut.global", tEq(init.E, cur.E), nil, nil)
 			}
+		}
+	}
+	for _, k := range cutGhostKeys {
+		head, known := cut.ghosts[k]
+		if !known {
+			continue
+		}
+		cur := ""
+		if tv, ok := st.ghost[k].(TV); ok {
+			cur = tv.E
+		}
+		if cur != head {
+			g := "false" // first touched inside the loop body
+			if head != "" && cur != "" {
+				g = tEq(head, cur)
+			}
+			// part of every property that has this unit: what is proved behind the loop relies on it
+			x.oblige(st, fr, fmt.Sprintf("inv.%d.*.ghost.%s.step", lp.ordinal, k), "inv.step", "*.cut.ghost."+k, g, nil, nil)
 		}
 	}
 	if cut.variant != "" {
